@@ -14,10 +14,11 @@
    code layer  compose2_impl_exact inverse_impl_exact transform_impl_exact compose_from_impl_exact,
                mvmul_dist / compose2_impl_close / transform_impl_close (deviation < 6e-14 |t|_inf in the band)
    rescale     inverse_rescale compose2_rescale compose_from_rescale transform_rescale rescale_keeps_laws rescale_api_lift
-   histories   hstep_inverse hstep_compose hstep_rescale hstep_keeps_objects history_inverse_current
+   histories   hstep_inverse hstep_compose hstep_compose_fresh hstep_rescale hstep_keeps_objects wf_store_hstep
+               rescale_result_keeps_operands (results of inverse / compose(>=2) are fresh objects) history_inverse_current
    API layer   compose_api_refines inverse_api_refines transform_api_refines (on complete poses with non-zero
                norm the call returns, and returns the code-layer value); compose_api_snoc (justifies CChain) *)
-From Coq Require Import QArith Qabs Qminmax Qreduction Qfield Bool List Setoid Morphisms Lia Lqa.
+From Coq Require Import QArith Qabs Qminmax Qreduction Qfield Bool List Setoid Morphisms Lia Lqa Arith.
 From KV.Model Require Import MQV MPose.
 From KV.Proofs Require Import PQV.
 Import ListNotations.
@@ -564,58 +565,114 @@ Lemma rescale_api_none s r : rescale_api s (mkO r None) = mkO r None.
 Proof. reflexivity. Qed.
 
 (* ------------------------------------------------------------------ histories: objects hold only (r, t) *)
-Lemma nth_error_set_nth_same {A} (l : list A) i x : (i < length l)%nat -> nth_error (set_nth l i x) i = Some x.
-Proof. revert i; induction l as [|y l IH]; intros [|i] H; cbn in *; try lia; [reflexivity | apply IH; lia]. Qed.
-Lemma nth_error_set_nth_other {A} (l : list A) i j x : i <> j -> nth_error (set_nth l i x) j = nth_error l j.
-Proof.
-  revert i j; induction l as [|y l IH]; intros [|i] [|j] H; cbn; try reflexivity; try congruence.
-  apply IH. congruence.
-Qed.
-Lemma length_set_nth {A} (l : list A) i x : length (set_nth l i x) = length l.
-Proof. revert i; induction l as [|y l IH]; intros [|i]; cbn; try reflexivity. rewrite IH. reflexivity. Qed.
-
-(* inverse(): a new object, equal to inverse_api of the CURRENT value of object i; no existing object changes *)
+(* inverse(): a new handle on a FRESH object, equal to inverse_api of the CURRENT value of handle i; nothing else changes *)
 Theorem hstep_inverse st i st' : hstep st (HInverse i) = Some st' ->
-  exists p m, nth_error st i = Some p /\ inverse_api p = Ok m /\ st' = st ++ [m].
+  exists c p m, nth_error st i = Some (c, p) /\ inverse_api p = Ok m /\ st' = st ++ [(length st, m)].
 Proof.
-  cbn. destruct (nth_error st i) as [p|]; [|discriminate]. destruct (inverse_api p) as [m| |] eqn:E; try discriminate.
-  intros H; inversion H; subst. exists p, m. auto.
+  cbn. destruct (nth_error st i) as [[c p]|]; [|discriminate]. destruct (inverse_api p) as [m| |] eqn:E; try discriminate.
+  intros H; inversion H; subst. exists c, p, m. auto.
 Qed.
+(* compose(): one pose -> that very object; two or more -> a FRESH object holding compose_api of the current values *)
 Theorem hstep_compose st ids st' : hstep st (HCompose ids) = Some st' ->
-  exists ps m, nths st ids = Some ps /\ compose_api ps = Ok m /\ st' = st ++ [m].
+  exists es, nths st ids = Some es /\
+    ((exists c p, es = [(c, p)] /\ st' = st ++ [(c, p)]) \/
+     ((length es <> 1)%nat /\ exists m, compose_api (map snd es) = Ok m /\ st' = st ++ [(length st, m)])).
 Proof.
-  cbn. destruct (nths st ids) as [ps|]; [|discriminate]. destruct (compose_api ps) as [m| |] eqn:E; try discriminate.
-  intros H; inversion H; subst. exists ps, m. auto.
+  cbn. destruct (nths st ids) as [es|]; [|discriminate]. intros H. exists es. split; [reflexivity|].
+  destruct es as [|[c p] [|e es]].
+  - right. split; [cbn; lia|]. cbn in H. discriminate.
+  - left. inversion H; subst. exists c, p. auto.
+  - right. split; [cbn; lia|]. destruct (compose_api (map snd ((c, p) :: e :: es))) as [m| |]; try discriminate.
+    inversion H; subst. exists m. auto.
 Qed.
-(* rescale(): only its target changes, to rescale_api of its current value *)
+Lemma nths_length {A} (l : list A) ids es : nths l ids = Some es -> length es = length ids.
+Proof.
+  revert es; induction ids as [|i ids IH]; intros es H; cbn in H; [inversion H; reflexivity|].
+  destruct (nth_error l i); [|discriminate]. destruct (nths l ids) as [xs|]; [|discriminate].
+  inversion H; subst. cbn. f_equal. apply IH. reflexivity.
+Qed.
+Theorem hstep_compose_fresh st ids st' : (2 <= length ids)%nat -> hstep st (HCompose ids) = Some st' ->
+  exists es m, nths st ids = Some es /\ compose_api (map snd es) = Ok m /\ st' = st ++ [(length st, m)].
+Proof.
+  intros L H. destruct (hstep_compose _ _ _ H) as (es & N & [(c & p & -> & _)|(_ & m & E & ->)]).
+  - apply nths_length in N. cbn in N. lia.
+  - exists es, m. auto.
+Qed.
+(* rescale(): exactly the handles that denote the target's object change, to rescale_api of their value *)
 Theorem hstep_rescale st i s st' : hstep st (HRescale i s) = Some st' ->
-  exists p, nth_error st i = Some p /\ nth_error st' i = Some (rescale_api s p) /\
-            length st' = length st /\ forall j, j <> i -> nth_error st' j = nth_error st j.
+  exists c p, nth_error st i = Some (c, p) /\ length st' = length st /\
+    forall j cj pj, nth_error st j = Some (cj, pj) ->
+      nth_error st' j = Some (cj, if Nat.eqb cj c then rescale_api s pj else pj).
 Proof.
-  cbn. destruct (nth_error st i) as [p|] eqn:E; [|discriminate]. intros H; inversion H; subst. exists p.
-  assert (L : (i < length st)%nat) by (apply nth_error_Some; congruence).
-  repeat split.
-  - apply nth_error_set_nth_same; assumption.
-  - apply length_set_nth.
-  - intros j Hj. apply nth_error_set_nth_other. congruence.
+  cbn. destruct (nth_error st i) as [[c p]|] eqn:E; [|discriminate]. intros H; inversion H; subst. exists c, p.
+  split; [reflexivity|]. split; [apply map_length|].
+  intros j cj pj N. rewrite nth_error_map, N. cbn. destruct (Nat.eqb cj c); reflexivity.
 Qed.
-(* existing objects are never changed by inverse / compose *)
+(* existing handles are never changed by inverse / compose *)
 Corollary hstep_keeps_objects st op st' j x : (forall i s, op <> HRescale i s) ->
   hstep st op = Some st' -> nth_error st j = Some x -> nth_error st' j = Some x.
 Proof.
-  intros NR H N. destruct op as [i|ids|i s].
-  - destruct (hstep_inverse _ _ _ H) as (p & m & _ & _ & ->). rewrite nth_error_app1; [assumption|]. apply nth_error_Some; congruence.
-  - destruct (hstep_compose _ _ _ H) as (ps & m & _ & _ & ->). rewrite nth_error_app1; [assumption|]. apply nth_error_Some; congruence.
+  intros NR H N. assert (L : (j < length st)%nat) by (apply nth_error_Some; congruence).
+  destruct op as [i|ids|i s].
+  - destruct (hstep_inverse _ _ _ H) as (c & p & m & _ & _ & ->). rewrite nth_error_app1; assumption.
+  - destruct (hstep_compose _ _ _ H) as (es & _ & [(c & p & _ & ->)|(_ & m & _ & ->)]); rewrite nth_error_app1; assumption.
   - exfalso. eapply NR. reflexivity.
 Qed.
-(* history independence, the form used against a memoised inverse: whatever program ran before, inverting
-   object i gives inverse_api of what object i holds NOW, and on a valid pose that is the group inverse of it *)
-Theorem history_inverse_current st ops st1 i p st2 :
-  hrun st ops = Some st1 -> nth_error st1 i = Some (lift p) -> valid p ->
-  hstep st1 (HInverse i) = Some st2 ->
-  exists m, st2 = st1 ++ [m] /\ oeq m (lift (inverse_impl p)).
+(* well-formedness (canonical handles never point forward) is preserved *)
+Lemma wf_store_app st c p : wf_store st -> (c <= length st)%nat -> wf_store (st ++ [(c, p)]).
 Proof.
-  intros _ N V H. destruct (hstep_inverse _ _ _ H) as (p' & m & N' & E & ->).
-  rewrite N in N'. inversion N'; subst p'. destruct (inverse_api_refines p V) as (m' & E' & O).
+  intros W L k c' p' N. destruct (Nat.lt_ge_cases k (length st)) as [Hk|Hk].
+  - rewrite nth_error_app1 in N by assumption. eapply W; eassumption.
+  - rewrite nth_error_app2 in N by assumption. destruct (k - length st)%nat as [|d] eqn:D; cbn in N.
+    + inversion N; subst. lia.
+    + destruct d; discriminate.
+Qed.
+Lemma nths_in {A} (l : list A) ids es x : nths l ids = Some es -> In x es -> exists k, nth_error l k = Some x.
+Proof.
+  revert es; induction ids as [|i ids IH]; intros es H I; cbn in H; [inversion H; subst; destruct I|].
+  destruct (nth_error l i) eqn:E; [|discriminate]. destruct (nths l ids) as [xs|]; [|discriminate].
+  inversion H; subst. destruct I as [->|I]; [exists i; assumption | eapply IH; [reflexivity | assumption]].
+Qed.
+Theorem wf_store_hstep st op st' : wf_store st -> hstep st op = Some st' -> wf_store st'.
+Proof.
+  intros W H. destruct op as [i|ids|i s].
+  - destruct (hstep_inverse _ _ _ H) as (c & p & m & _ & _ & ->). apply wf_store_app; [assumption | lia].
+  - destruct (hstep_compose _ _ _ H) as (es & N & [(c & p & -> & ->)|(_ & m & _ & ->)]).
+    + destruct (nths_in _ _ _ (c, p) N (or_introl eq_refl)) as (k & Nk).
+      apply wf_store_app; [assumption|]. pose proof (W _ _ _ Nk). assert (k < length st)%nat by (apply nth_error_Some; congruence). lia.
+    + apply wf_store_app; [assumption | lia].
+  - destruct (hstep_rescale _ _ _ _ H) as (c & p & _ & L & R). intros k c' p' N.
+    destruct (nth_error st k) as [[ck pk]|] eqn:E.
+    + rewrite (R _ _ _ E) in N. inversion N; subst. eapply W; eassumption.
+    + apply nth_error_None in E. assert (k < length st')%nat by (apply nth_error_Some; congruence). lia.
+Qed.
+(* THE identity law: the result of inverse() or of compose() on two or more poses is a fresh object, so rescaling
+   it (or doing anything to it) leaves every earlier handle — in particular every operand — as it was *)
+Theorem rescale_result_keeps_operands st op st1 s st2 : wf_store st ->
+  (exists i, op = HInverse i) \/ (exists ids, op = HCompose ids /\ (2 <= length ids)%nat) ->
+  hstep st op = Some st1 -> hstep st1 (HRescale (length st) s) = Some st2 ->
+  forall k x, nth_error st k = Some x -> nth_error st2 k = Some x.
+Proof.
+  intros W Hop H1 H2 k [ck pk] N.
+  assert (exists m, st1 = st ++ [(length st, m)]) as (m & ->).
+  { destruct Hop as [(i & ->)|(ids & -> & L)].
+    - destruct (hstep_inverse _ _ _ H1) as (c & p & m & _ & _ & ->). eauto.
+    - destruct (hstep_compose_fresh _ _ _ L H1) as (es & m & _ & _ & ->). eauto. }
+  destruct (hstep_rescale _ _ _ _ H2) as (c & p & Nc & _ & R).
+  rewrite nth_error_app2, Nat.sub_diag in Nc by lia. cbn in Nc. inversion Nc; subst c p.
+  assert (Lk : (k < length st)%nat) by (apply nth_error_Some; congruence).
+  assert (N' : nth_error (st ++ [(length st, m)]) k = Some (ck, pk)) by (rewrite nth_error_app1; assumption).
+  rewrite (R _ _ _ N'). pose proof (W _ _ _ N) as Hc.
+  destruct (Nat.eqb_spec ck (length st)); [lia | reflexivity].
+Qed.
+(* history independence, the form used against a memoised inverse: whatever program ran before, inverting
+   handle i gives inverse_api of what it holds NOW, and on a valid pose that is the group inverse of it *)
+Theorem history_inverse_current st ops st1 i c p st2 :
+  hrun st ops = Some st1 -> nth_error st1 i = Some (c, lift p) -> valid p ->
+  hstep st1 (HInverse i) = Some st2 ->
+  exists m, st2 = st1 ++ [(length st1, m)] /\ oeq m (lift (inverse_impl p)).
+Proof.
+  intros _ N V H. destruct (hstep_inverse _ _ _ H) as (c' & p' & m & N' & E & ->).
+  rewrite N in N'. inversion N'; subst c' p'. destruct (inverse_api_refines p V) as (m' & E' & O).
   rewrite E in E'. inversion E'; subst m'. exists m. auto.
 Qed.
